@@ -1,30 +1,40 @@
-(* Model of the bookkeeping of device/src/u3v/async_read.rs (AsyncPool: submit, poll, pending,
-   is_empty, cancel_all, Drop) together with what libusb knows about every transfer (C12).
+(* Model of the bookkeeping of device/src/u3v/async_read.rs (AsyncPool: submit, poll with
+   poll_completed, pending, is_empty, cancel_all, Drop) together with what libusb knows about every
+   transfer (C12).
 
    A slot of `pending` carries the state libusb has for that transfer: never accepted (LUnknown),
    accepted and in flight (LFlight: completion status and length, the poll epoch at which it is due,
-   cancellation requested), or completed with its callback run and not yet reaped (LDone).
-   The device side is scripted exactly as rust/h_async/src/fake_usb.rs: every
-   libusb_submit_transfer call takes the next plan entry (refused with an error code / accepted with
-   a completion); event handling completes every in-flight transfer that is due or cancelled;
-   libusb_cancel_transfer succeeds on in-flight transfers only.
+   the latency of a cancellation, cancellation requested), or completed with its callback run and
+   not yet reaped (LDone).
+   The device side is scripted exactly as rust/h_async/src/fake_usb.rs:
+   - every libusb_submit_transfer call takes the next plan entry (refused with an error code /
+     accepted with a completion and a cancellation latency);
+   - every libusb_handle_events_locked call takes the next entry of the event plan `p_evs`: a libusb
+     error code is returned and nothing is handled; 0 (also past the end) handles events: every
+     in-flight transfer that is due completes, a cancelled one completes (CANCELLED) when its
+     remaining latency is 0 and otherwise has it decremented; when nothing completed the call used
+     up the whole timeval it was given (the time-out of the poll has passed);
+   - libusb_cancel_transfer succeeds on in-flight transfers only.
 
    `push_first = false` is the code: a transfer is pushed onto `pending` only after
    libusb_submit_transfer accepted it.  `push_first = true` pushes first and submits through
-   pending.back_mut() (kept to show what the theorems exclude). *)
+   pending.back_mut() (kept to show what the theorems exclude).
+   `pool_drop` is the code's Drop (`while !is_empty() { poll(1s).ok(); }`); `pool_drop_rounds` is
+   the variant `for _ in 0..pending() { poll(1s).ok(); }` (kept to show what the theorems exclude). *)
 From Cam Require Export Outcome Bytes.
 
-Inductive plan := PRefuse (code : Z) | PAccept (status len delay : Z).
+Inductive plan := PRefuse (code : Z) | PAccept (status len delay : Z) (clat : nat).
 
 Inductive lstate :=
 | LUnknown
-| LFlight (status len due : Z) (cancel : bool)
+| LFlight (status len due : Z) (clat : nat) (cancel : bool)
 | LDone (status len : Z).
 
 Record slot := { sl_no : Z; sl_buf : Z; sl_st : lstate }.
 
 Record pstate := {
   p_plan : list plan;
+  p_evs : list Z;               (* results of the coming libusb_handle_events_locked calls *)
   p_epoch : Z;                  (* poll operations begun *)
   p_pool : option (list slot);  (* AsyncPool.pending; None: no pool *)
   p_calls : Z;                  (* libusb_submit_transfer calls *)
@@ -32,12 +42,14 @@ Record pstate := {
   p_refused : Z;
   p_completed : Z;
   p_notfound : Z;               (* libusb_cancel_transfer -> NOT_FOUND *)
+  p_evcalls : Z;                (* libusb_handle_events_locked calls *)
+  p_freed : Z;                  (* transfers freed (libusb_free_transfer) while libusb had them in flight *)
   p_reaped : list Z             (* ghost: numbers of the transfers poll has returned, in order *)
 }.
 
-Definition pinit (pl : list plan) : pstate :=
-  {| p_plan := pl; p_epoch := 0; p_pool := Some []; p_calls := 0; p_accepted := 0; p_refused := 0;
-     p_completed := 0; p_notfound := 0; p_reaped := [] |}.
+Definition pinit (pl : list plan) (evs : list Z) : pstate :=
+  {| p_plan := pl; p_evs := evs; p_epoch := 0; p_pool := Some []; p_calls := 0; p_accepted := 0; p_refused := 0;
+     p_completed := 0; p_notfound := 0; p_evcalls := 0; p_freed := 0; p_reaped := [] |}.
 
 (* LibUsbError::from_libusb_error, classes numbered as the harness prints them; None: unreachable!() *)
 Definition err_class (code : Z) : option Z :=
@@ -57,14 +69,21 @@ Definition completion (status len : Z) : option (Z + Z) :=
   else if status =? 6 then Some (inr 7)       (* OVERFLOW *)
   else None.
 
-(* libusb_handle_events: every in-flight transfer that is due or cancelled completes *)
+Definition mkslot (sl : slot) (st : lstate) : slot := {| sl_no := sl_no sl; sl_buf := sl_buf sl; sl_st := st |}.
+
+(* one successful event handling, one transfer: a cancelled transfer whose latency has run out
+   completes as CANCELLED, a due one with its planned completion, a cancelled one that is still
+   being cancelled gets one step closer *)
 Definition complete1 (epoch : Z) (sl : slot) : slot * Z :=
   match sl_st sl with
-  | LFlight status len due cancel =>
-    if cancel then ({| sl_no := sl_no sl; sl_buf := sl_buf sl; sl_st := LDone 3 0 |}, 1)
-    else if due <? epoch then
-      ({| sl_no := sl_no sl; sl_buf := sl_buf sl; sl_st := LDone status (if status =? 0 then len else 0) |}, 1)
-    else (sl, 0)
+  | LFlight status len due clat cancel =>
+    match cancel, clat with
+    | true, O => (mkslot sl (LDone 3 0), 1)
+    | _, _ =>
+      if due <? epoch then (mkslot sl (LDone status (if status =? 0 then len else 0)), 1)
+      else if cancel then (mkslot sl (LFlight status len due (pred clat) true), 0)
+      else (sl, 0)
+    end
   | _ => (sl, 0)
   end.
 
@@ -77,7 +96,7 @@ Fixpoint events (epoch : Z) (q : list slot) : list slot * Z :=
 (* libusb_cancel_transfer on every pending transfer *)
 Definition cancel1 (sl : slot) : slot * Z :=
   match sl_st sl with
-  | LFlight status len due _ => ({| sl_no := sl_no sl; sl_buf := sl_buf sl; sl_st := LFlight status len due true |}, 0)
+  | LFlight status len due clat _ => (mkslot sl (LFlight status len due clat true), 0)
   | _ => (sl, 1)
   end.
 
@@ -87,31 +106,79 @@ Fixpoint cancel_all (q : list slot) : list slot * Z :=
   | sl :: r => let '(sl', n) := cancel1 sl in let '(r', m) := cancel_all r in (sl' :: r', n + m)
   end.
 
-Definition set_pool (s : pstate) (q : option (list slot)) : pstate :=
-  {| p_plan := p_plan s; p_epoch := p_epoch s; p_pool := q; p_calls := p_calls s; p_accepted := p_accepted s;
-     p_refused := p_refused s; p_completed := p_completed s; p_notfound := p_notfound s; p_reaped := p_reaped s |}.
+(* ---- state updates -------------------------------------------------------------------------- *)
 
-(* AsyncPool::submit *)
+Definition set_pool (s : pstate) (q : option (list slot)) : pstate :=
+  {| p_plan := p_plan s; p_evs := p_evs s; p_epoch := p_epoch s; p_pool := q; p_calls := p_calls s;
+     p_accepted := p_accepted s; p_refused := p_refused s; p_completed := p_completed s; p_notfound := p_notfound s;
+     p_evcalls := p_evcalls s; p_freed := p_freed s; p_reaped := p_reaped s |}.
+
+(* one libusb_handle_events_locked call begins: its result is taken from the event plan *)
+Definition ev_call (s : pstate) : pstate :=
+  {| p_plan := p_plan s; p_evs := tl (p_evs s); p_epoch := p_epoch s; p_pool := p_pool s; p_calls := p_calls s;
+     p_accepted := p_accepted s; p_refused := p_refused s; p_completed := p_completed s; p_notfound := p_notfound s;
+     p_evcalls := p_evcalls s + 1; p_freed := p_freed s; p_reaped := p_reaped s |}.
+
+Definition add_completed (s : pstate) (n : Z) : pstate :=
+  {| p_plan := p_plan s; p_evs := p_evs s; p_epoch := p_epoch s; p_pool := p_pool s; p_calls := p_calls s;
+     p_accepted := p_accepted s; p_refused := p_refused s; p_completed := p_completed s + n; p_notfound := p_notfound s;
+     p_evcalls := p_evcalls s; p_freed := p_freed s; p_reaped := p_reaped s |}.
+
+Definition add_notfound (s : pstate) (n : Z) : pstate :=
+  {| p_plan := p_plan s; p_evs := p_evs s; p_epoch := p_epoch s; p_pool := p_pool s; p_calls := p_calls s;
+     p_accepted := p_accepted s; p_refused := p_refused s; p_completed := p_completed s; p_notfound := p_notfound s + n;
+     p_evcalls := p_evcalls s; p_freed := p_freed s; p_reaped := p_reaped s |}.
+
+Definition next_epoch (s : pstate) : pstate :=
+  {| p_plan := p_plan s; p_evs := p_evs s; p_epoch := p_epoch s + 1; p_pool := p_pool s; p_calls := p_calls s;
+     p_accepted := p_accepted s; p_refused := p_refused s; p_completed := p_completed s; p_notfound := p_notfound s;
+     p_evcalls := p_evcalls s; p_freed := p_freed s; p_reaped := p_reaped s |}.
+
+Definition push_ev (s : pstate) (code : Z) : pstate :=
+  {| p_plan := p_plan s; p_evs := p_evs s ++ [code]; p_epoch := p_epoch s; p_pool := p_pool s; p_calls := p_calls s;
+     p_accepted := p_accepted s; p_refused := p_refused s; p_completed := p_completed s; p_notfound := p_notfound s;
+     p_evcalls := p_evcalls s; p_freed := p_freed s; p_reaped := p_reaped s |}.
+
+(* pending.pop_front() of the completed front transfer `sl` *)
+Definition pop_front (s : pstate) (sl : slot) (r : list slot) : pstate :=
+  {| p_plan := p_plan s; p_evs := p_evs s; p_epoch := p_epoch s; p_pool := Some r; p_calls := p_calls s;
+     p_accepted := p_accepted s; p_refused := p_refused s; p_completed := p_completed s; p_notfound := p_notfound s;
+     p_evcalls := p_evcalls s; p_freed := p_freed s; p_reaped := p_reaped s ++ [sl_no sl] |}.
+
+(* transfers libusb still has in flight *)
+Definition is_flight (sl : slot) : bool := match sl_st sl with LFlight _ _ _ _ _ => true | _ => false end.
+Definition in_flight (q : list slot) : Z := zlen (filter is_flight q).
+
+(* the pool goes away: `pending` is dropped, every AsyncTransfer in it is freed (AsyncTransfer::drop:
+   the completion flag, then libusb_free_transfer), in flight or not *)
+Definition free_pool (s : pstate) (q : list slot) : pstate :=
+  {| p_plan := p_plan s; p_evs := p_evs s; p_epoch := p_epoch s; p_pool := None; p_calls := p_calls s;
+     p_accepted := p_accepted s; p_refused := p_refused s; p_completed := p_completed s; p_notfound := p_notfound s;
+     p_evcalls := p_evcalls s; p_freed := p_freed s + in_flight q; p_reaped := p_reaped s |}.
+
+(* ---- AsyncPool::submit ---------------------------------------------------------------------- *)
 Definition submit (push_first : bool) (s : pstate) (q : list slot) (len : Z) : pstate * list Z :=
-  let pl := match p_plan s with [] => PAccept 0 len 0 | x :: _ => x end in
+  let pl := match p_plan s with [] => PAccept 0 len 0 0 | x :: _ => x end in
   let rest := tl (p_plan s) in
   match pl with
   | PRefuse code =>
     (* the transfer is freed (or, with push_first, stays in `pending` although libusb never took it) *)
     let q' := if push_first then q ++ [{| sl_no := -1; sl_buf := len; sl_st := LUnknown |}] else q in
-    ({| p_plan := rest; p_epoch := p_epoch s; p_pool := Some q'; p_calls := p_calls s + 1;
+    ({| p_plan := rest; p_evs := p_evs s; p_epoch := p_epoch s; p_pool := Some q'; p_calls := p_calls s + 1;
         p_accepted := p_accepted s; p_refused := p_refused s + 1; p_completed := p_completed s;
-        p_notfound := p_notfound s; p_reaped := p_reaped s |},
+        p_notfound := p_notfound s; p_evcalls := p_evcalls s; p_freed := p_freed s; p_reaped := p_reaped s |},
      match err_class code with Some c => [1; c] | None => [2] end)
-  | PAccept status ln delay =>
+  | PAccept status ln delay clat =>
     let sl := {| sl_no := p_accepted s; sl_buf := len;
-                 sl_st := LFlight status (Z.min ln len) (p_epoch s + delay) false |} in
-    ({| p_plan := rest; p_epoch := p_epoch s; p_pool := Some (q ++ [sl]); p_calls := p_calls s + 1;
+                 sl_st := LFlight status (Z.min ln len) (p_epoch s + delay) clat false |} in
+    ({| p_plan := rest; p_evs := p_evs s; p_epoch := p_epoch s; p_pool := Some (q ++ [sl]); p_calls := p_calls s + 1;
         p_accepted := p_accepted s + 1; p_refused := p_refused s; p_completed := p_completed s;
-        p_notfound := p_notfound s; p_reaped := p_reaped s |}, [0])
+        p_notfound := p_notfound s; p_evcalls := p_evcalls s; p_freed := p_freed s; p_reaped := p_reaped s |}, [0])
   end.
 
-(* the front transfer after poll_completed: None = not completed (time-out, stays pending) *)
+(* ---- AsyncPool::poll ------------------------------------------------------------------------ *)
+
+(* handle_completed of the front transfer: None = its completion flag is not set *)
 Definition reap (sl : slot) : option (list Z) :=
   match sl_st sl with
   | LDone status len =>
@@ -123,66 +190,130 @@ Definition reap (sl : slot) : option (list Z) :=
   | _ => None
   end.
 
-(* AsyncPool::poll on a non-empty pool (the epoch has been advanced by the caller when it is a
-   poll operation of the harness; the polls inside Drop do not advance it) *)
-Definition poll (s : pstate) (q : list slot) : pstate * option (list Z) :=
+Definition front_done (q : list slot) : bool :=
+  match q with sl :: _ => match sl_st sl with LDone _ _ => true | _ => false end | [] => false end.
+
+(* poll_completed with a positive time-out, entered with the front transfer not completed:
+     while err == 0 && !completed && deadline > now { err = libusb_handle_events_locked(ctx, remaining) }
+   One iteration = one event-handling call.  It fails (the loop ends with that error; TIMEOUT = -7 is
+   turned into "not completed"), or completes the front transfer, or completes nothing - then the call
+   has waited for the whole remaining time and the deadline has passed -, or completes other
+   transfers only and the loop goes round again.  Every further round needs a completion, so the
+   number of rounds is at most the number of transfers in flight + 1: the fuel S (length q) given by
+   `poll` is never used up (P_C12p.poll_wait_fuel). *)
+Inductive wres := WDone | WTimeout | WErr (code : Z).
+
+Fixpoint poll_wait (fuel : nat) (s : pstate) (q : list slot) : pstate * list slot * wres :=
+  match fuel with
+  | O => (s, q, WTimeout)
+  | S f =>
+    let code := hd 0 (p_evs s) in
+    let s1 := ev_call s in
+    if code =? 0 then
+      let '(q', n) := events (p_epoch s) q in
+      let s2 := add_completed s1 n in
+      if front_done q' then (s2, q', WDone)
+      else if n =? 0 then (s2, q', WTimeout)
+      else poll_wait f s2 q'
+    else if code =? -7 then (s1, q, WTimeout)
+    else (s1, q, WErr code)
+  end.
+
+(* PReap: the front transfer was popped and this is handle_completed's result ([2]: unreachable!()
+   after the pop); PFail: Err(..) and nothing was popped; PPanic: a panic and nothing was popped
+   (from_libusb_error's unreachable!() on a code libusb does not define; poll on an empty pool) *)
+Inductive pres := PReap (out : list Z) | PFail (out : list Z) | PPanic.
+
+Definition poll (ms : Z) (s : pstate) (q : list slot) : pstate * pres :=
   match q with
-  | [] => (s, None)
+  | [] => (s, PPanic)
   | sl :: r =>
     match reap sl with
-    | Some out =>
-      ({| p_plan := p_plan s; p_epoch := p_epoch s; p_pool := Some r; p_calls := p_calls s;
-          p_accepted := p_accepted s; p_refused := p_refused s; p_completed := p_completed s;
-          p_notfound := p_notfound s; p_reaped := p_reaped s ++ [sl_no sl] |}, Some out)
+    | Some out => (pop_front s sl r, PReap out)
     | None =>
-      let '(q', n) := events (p_epoch s) q in
-      match q' with
-      | sl' :: r' =>
-        match reap sl' with
-        | Some out =>
-          ({| p_plan := p_plan s; p_epoch := p_epoch s; p_pool := Some r'; p_calls := p_calls s;
-              p_accepted := p_accepted s; p_refused := p_refused s; p_completed := p_completed s + n;
-              p_notfound := p_notfound s; p_reaped := p_reaped s ++ [sl_no sl'] |}, Some out)
-        | None =>
-          ({| p_plan := p_plan s; p_epoch := p_epoch s; p_pool := Some q'; p_calls := p_calls s;
-              p_accepted := p_accepted s; p_refused := p_refused s; p_completed := p_completed s + n;
-              p_notfound := p_notfound s; p_reaped := p_reaped s |}, None)
+      if ms <=? 0 then (s, PFail [1; 6])       (* the deadline has passed before the first round *)
+      else
+        let '(s1, q', w) := poll_wait (S (length q)) s q in
+        let s2 := set_pool s1 (Some q') in
+        match w with
+        | WDone =>
+          match q' with
+          | sl' :: r' => match reap sl' with Some out => (pop_front s2 sl' r', PReap out) | None => (s2, PFail [1; 6]) end
+          | [] => (s2, PFail [1; 6])
+          end
+        | WTimeout => (s2, PFail [1; 6])
+        | WErr code => match err_class code with Some c => (s2, PFail [1; c]) | None => (s2, PPanic) end
         end
-      | [] => (s, None)
-      end
     end
   end.
 
-(* Drop: cancel_all, then poll until the pool is empty.  None: a poll timed out with nothing left
-   that could ever complete the front transfer - the loop `while !is_empty() { poll(1s).ok(); }`
-   never ends *)
-Fixpoint drain (fuel : nat) (s : pstate) (q : list slot) : option pstate :=
+Definition is_panic (out : list Z) : bool := match out with [2] => true | _ => false end.
+
+(* ---- Drop ------------------------------------------------------------------------------------
+   cancel_all(); while !is_empty() { poll(1 s).ok(); }  and then `pending` (empty) is dropped.
+   DRet: drop returned; DPanic: a poll panicked (unreachable!()), the unwinding frees what is left
+   in `pending`; DHang: the fuel is used up.  The fuel `drop_fuel` = pending transfers + the
+   cancellation latencies still to run + failing event-handling calls still in the plan + 1 is
+   never used up (P_C12p.drain_ready): the loop ends within that many polls. *)
+Inductive dres := DRet (s : pstate) | DPanic (s : pstate) | DHang.
+
+Fixpoint drain (fuel : nat) (s : pstate) (q : list slot) : dres :=
   match q with
-  | [] => Some (set_pool s None)
+  | [] => DRet (free_pool s [])
   | _ =>
     match fuel with
-    | O => None
+    | O => DHang
     | S f =>
-      match poll s q with
-      | (s', Some _) => match p_pool s' with Some q' => drain f s' q' | None => None end
-      | (_, None) => None
+      match poll 1000 s q with
+      | (s', PReap out) =>
+        match p_pool s' with
+        | Some q' => if is_panic out then DPanic (free_pool s' q') else drain f s' q'
+        | None => DHang
+        end
+      | (s', PFail _) => match p_pool s' with Some q' => drain f s' q' | None => DHang end
+      | (s', PPanic) => match p_pool s' with Some q' => DPanic (free_pool s' q') | None => DHang end
       end
     end
   end.
 
-Definition pool_drop (s : pstate) (q : list slot) : option pstate :=
+Definition lat1 (sl : slot) : nat := match sl_st sl with LFlight _ _ _ clat _ => clat | _ => O end.
+Fixpoint lat_sum (q : list slot) : nat := match q with [] => O | sl :: r => (lat1 sl + lat_sum r)%nat end.
+Fixpoint failures (evs : list Z) : nat :=
+  match evs with [] => O | c :: r => if c =? 0 then failures r else S (failures r) end.
+
+Definition drop_fuel (s : pstate) (q : list slot) : nat := S (length q + lat_sum q + failures (p_evs s)).
+
+Definition pool_drop (s : pstate) (q : list slot) : dres :=
   let '(q', n) := cancel_all q in
-  drain (S (length q'))
-        {| p_plan := p_plan s; p_epoch := p_epoch s; p_pool := Some q'; p_calls := p_calls s;
-           p_accepted := p_accepted s; p_refused := p_refused s; p_completed := p_completed s;
-           p_notfound := p_notfound s + n; p_reaped := p_reaped s |} q'.
+  let s0 := add_notfound (set_pool s (Some q')) n in
+  drain (drop_fuel s0 q') s0 q'.
 
-(* transfers libusb still has in flight *)
-Definition in_flight (q : list slot) : Z :=
-  zlen (filter (fun sl => match sl_st sl with LFlight _ _ _ _ => true | _ => false end) q).
+(* the variant: cancel_all(); for _ in 0..pending() { poll(1 s).ok(); }  and then `pending` - with
+   whatever is still in it - is dropped *)
+Fixpoint drain_rounds (n : nat) (s : pstate) (q : list slot) : dres :=
+  match n with
+  | O => DRet (free_pool s q)
+  | S k =>
+    match poll 1000 s q with
+    | (s', PReap out) =>
+      match p_pool s' with
+      | Some q' => if is_panic out then DPanic (free_pool s' q') else drain_rounds k s' q'
+      | None => DHang
+      end
+    | (s', PFail _) => match p_pool s' with Some q' => drain_rounds k s' q' | None => DHang end
+    | (s', PPanic) => match p_pool s' with Some q' => DPanic (free_pool s' q') | None => DHang end
+    end
+  end.
 
-(* one operation of the harness: new state, output; None: the operation never returns *)
+Definition pool_drop_rounds (s : pstate) (q : list slot) : dres :=
+  let '(q', n) := cancel_all q in
+  let s0 := add_notfound (set_pool s (Some q')) n in
+  drain_rounds (length q') s0 q'.
+
+(* ---- one operation of the harness: new state, output; None: the operation never returns ------- *)
 Definition pool_op (push_first : bool) (s : pstate) (op arg : Z) : option (pstate * list Z) :=
+  if op =? 9 then Some (push_ev s arg, [])
+  else
   match p_pool s with
   | Some q =>
     if op =? 1 then Some (submit push_first s q arg)
@@ -190,24 +321,20 @@ Definition pool_op (push_first : bool) (s : pstate) (op arg : Z) : option (pstat
       match q with
       | [] => Some (s, [-1])
       | _ =>
-        let s1 := {| p_plan := p_plan s; p_epoch := p_epoch s + 1; p_pool := p_pool s; p_calls := p_calls s;
-                     p_accepted := p_accepted s; p_refused := p_refused s; p_completed := p_completed s;
-                     p_notfound := p_notfound s; p_reaped := p_reaped s |} in
-        match poll s1 q with
-        | (s', Some out) => Some (s', out)
-        | (s', None) => Some (s', [1; 6])
+        match poll arg (next_epoch s) q with
+        | (s', PReap out) => Some (s', if is_panic out then out else out ++ [zlen (match p_pool s' with Some q' => q' | None => [] end)])
+        | (s', PFail out) => Some (s', out ++ [zlen (match p_pool s' with Some q' => q' | None => [] end)])
+        | (s', PPanic) => Some (s', [2])
         end
       end
     else if op =? 3 then Some (s, [zlen q])
     else if op =? 4 then
-      let '(q', n) := cancel_all q in
-      Some ({| p_plan := p_plan s; p_epoch := p_epoch s; p_pool := Some q'; p_calls := p_calls s;
-               p_accepted := p_accepted s; p_refused := p_refused s; p_completed := p_completed s;
-               p_notfound := p_notfound s + n; p_reaped := p_reaped s |}, [])
+      let '(q', n) := cancel_all q in Some (add_notfound (set_pool s (Some q')) n, [])
     else if op =? 5 then
       match pool_drop s q with
-      | Some s' => Some (s', [0; 0])
-      | None => None
+      | DRet s' => Some (s', [0; p_freed s'; p_evcalls s'])
+      | DPanic s' => Some (s', [2])
+      | DHang => None
       end
     else if op =? 6 then Some (s, [])
     else if op =? 7 then Some (s, [match q with [] => 1 | _ => 0 end])
@@ -218,8 +345,6 @@ Definition pool_op (push_first : bool) (s : pstate) (op arg : Z) : option (pstat
     else Some (s, [])
   end.
 
-Definition is_panic (out : list Z) : bool := match out with [2] => true | _ => false end.
-
 (* -> state, output, whether an operation panicked (the case ends there) *)
 Fixpoint pool_run (push_first : bool) (s : pstate) (ops : list (Z * Z)) : option (pstate * list Z * bool) :=
   match ops with
@@ -227,7 +352,7 @@ Fixpoint pool_run (push_first : bool) (s : pstate) (ops : list (Z * Z)) : option
   | (op, arg) :: r =>
     match pool_op push_first s op arg with
     | Some (s', out) =>
-      if ((op =? 1) || (op =? 2)) && is_panic out then Some (s', out, true)
+      if ((op =? 1) || (op =? 2) || (op =? 5)) && is_panic out then Some (s', out, true)
       else match pool_run push_first s' r with
            | Some (s'', out', b) => Some (s'', out ++ out', b)
            | None => None
@@ -238,13 +363,20 @@ Fixpoint pool_run (push_first : bool) (s : pstate) (ops : list (Z * Z)) : option
 
 (* ---- the harness line ------------------------------------------------------------------------ *)
 
-Fixpoint parse_plan (n : nat) (t : list Z) : list plan * list Z :=
+(* v2 = false: `pool` lines (no cancellation latency, no event plan); v2 = true: `pool2` lines *)
+Fixpoint parse_plan (v2 : bool) (n : nat) (t : list Z) : list plan * list Z :=
   match n with
   | O => ([], t)
   | S k =>
     match t with
-    | 0 :: code :: r => let '(p, r') := parse_plan k r in (PRefuse code :: p, r')
-    | _ :: st :: ln :: d :: r => let '(p, r') := parse_plan k r in (PAccept st ln d :: p, r')
+    | 0 :: code :: r => let '(p, r') := parse_plan v2 k r in (PRefuse code :: p, r')
+    | _ :: st :: ln :: d :: r =>
+      if v2 then
+        match r with
+        | cl :: r1 => let '(p, r') := parse_plan v2 k r1 in (PAccept st ln d (Z.to_nat cl) :: p, r')
+        | [] => ([], [])
+        end
+      else let '(p, r') := parse_plan v2 k r in (PAccept st ln d 0 :: p, r')
     | _ => ([], [])
     end
   end.
@@ -255,22 +387,26 @@ Fixpoint parse_ops (n : nat) (t : list Z) : list (Z * Z) :=
   | S k => match t with op :: a :: r => (op, a) :: parse_ops k r | _ => [] end
   end.
 
+Definition parse_evs (v2 : bool) (t : list Z) : list Z * list Z :=
+  if v2 then match t with n :: r => (take n r, drop n r) | [] => ([], []) end else ([], t).
+
 (* what rust/h_async prints for the case `toks`; [3]: the case never ends *)
-Definition run_pool_with (push_first : bool) (toks : list Z) : list Z :=
+Definition run_pool_with (push_first v2 : bool) (toks : list Z) : list Z :=
   match toks with
   | np :: t =>
-    let '(pl, t1) := parse_plan (Z.to_nat np) t in
-    match t1 with
+    let '(pl, t1) := parse_plan v2 (Z.to_nat np) t in
+    let '(evs, t1') := parse_evs v2 t1 in
+    match t1' with
     | nops :: t2 =>
-      match pool_run push_first (pinit pl) (parse_ops (Z.to_nat nops) t2) with
+      match pool_run push_first (pinit pl evs) (parse_ops (Z.to_nat nops) t2) with
       | None => [3]
       | Some (s, out, true) => out ++ [-9; -1]      (* an unreachable!() was hit: not exercised *)
       | Some (s, out, false) =>
         (* the pool is dropped at the end of the case *)
-        match (match p_pool s with Some q => pool_drop s q | None => Some s end) with
-        | None => [3]
-        | Some s' =>
-          out ++ [-9; p_calls s'; p_accepted s'; p_refused s'; p_completed s'; p_notfound s'; 0; 0]
+        match (match p_pool s with Some q => pool_drop s q | None => DRet s end) with
+        | DRet s' =>
+          out ++ [-9; p_calls s'; p_accepted s'; p_refused s'; p_completed s'; p_notfound s'; 0; p_freed s'; p_evcalls s']
+        | _ => [3]
         end
       end
     | [] => [-99]
@@ -278,4 +414,5 @@ Definition run_pool_with (push_first : bool) (toks : list Z) : list Z :=
   | [] => [-99]
   end.
 
-Definition run_pool (toks : list Z) : list Z := run_pool_with false toks.
+Definition run_pool (toks : list Z) : list Z := run_pool_with false false toks.
+Definition run_pool2 (toks : list Z) : list Z := run_pool_with false true toks.
